@@ -138,11 +138,13 @@ PROPS = {
                      "the payload of 'bitsequence' carries bit_store_type / bit_order_type (Rust field names), accepted by the shape predicate there and nowhere else"],
     ),
     'C17': dict(
-        streams=[dict(name='build', quick=3000, thorough=300000, also_docs=True)],
-        rule="random builder programs executed on the real typestate builders, MetaForm (types Node<0..7>, PhantomData<u8> / PhantomData<Node<1>> and the non-marker std types () / Box<()> / str / String as member types, compact::<u8|u32|u128>()) and PortableForm (arbitrary u32 ids): type-level setters before and after .path(..) (type_params, docs, docs_always / docs_portable, repeated: last wins), composite with unit / named / unnamed fields (0-4 field builders, name and type set in either order, type_name and docs setters before, between and after), variants (0-3, index at a random position, discriminant, fields set repeatedly), plus TypeDefTuple::new over lists with PhantomData members and From<TypeDef> for Type; each program run by a harness built WITHOUT and WITH scale-info's docs feature. Non-trivial: result has a reference or docs; distinct = distinct case lines.",
+        streams=[dict(name='build', quick=3000, thorough=300000, also_docs=True),
+                 dict(name='derive', pg=True, mode='derive', gen='gen_derive.py', quick=60, thorough=1200, filter=only('C17:')),
+                 dict(name='tinfo', pg=True, mode='tinfo', gen='gen_std.py', quick=120, thorough=2500, filter=only('C17:'))],
+        rule="random builder programs executed on the real typestate builders, MetaForm (types Node<0..7>, PhantomData<u8> / PhantomData<Node<1>> and the non-marker std types () / Box<()> / str / String as member types, compact::<u8|u32|u128>()) and PortableForm (arbitrary u32 ids): type-level setters before and after .path(..) (type_params, docs, docs_always / docs_portable, repeated: last wins), composite with unit / named / unnamed fields (0-4 field builders, name and type set in either order, type_name and docs setters before, between and after), variants (0-3, index at a random position, discriminant, fields set repeatedly), plus TypeDefTuple::new over lists with PhantomData members and From<TypeDef> for Type; each program run by a harness built WITHOUT and WITH scale-info's docs feature. Derive and built-in impls: the generated derive corpus (with its fixed catalogue: markers inside tuples, as generic arguments, a user type merely named PhantomData) and the built-in corpus, clause 'exactly the declared members that are not PhantomData markers are listed'. Non-trivial: result has a reference or docs; distinct = distinct case lines.",
         trusted_base=COMMON_TB,
         assumptions=["typestate-invalid programs cannot be expressed (rustc rejects them: C20)",
-                     "the PhantomData clause for the derive and the built-in impls is checked with C09/C04's corpora (scan for phantom members), see DESIGN.md"],
+                     "rustc compiles the generated programs as modelled"],
     ),
     'C16': dict(
         streams=[dict(name='meta', pg=True, mode='meta', quick=60, thorough=700, filter=only('C16:')),
